@@ -379,6 +379,46 @@ def similarity(spec, scale=1.0, theta=0.0, reflect=False, tx=0.0, ty=0.0):
     return out
 
 
+def align_first_segment(spec, rng):
+    """turn the tissue so that, at one end of one interface with >= 3 points, the first segment is EXACTLY parallel to a coordinate
+    axis (the second point gets exactly the junction's ordinate or abscissa; it moves by about one ulp, staying on its arc to 1e-15).
+    returns (spec, (junction id, neighbour id)) or (spec, None)"""
+    internal = [it for it in spec.get("ifaces", []) if len(it.get("cells", [])) == 2]
+    deg = {}
+    for it in internal:
+        for v in (it["pts"][0], it["pts"][-1]):
+            deg[v] = deg.get(v, 0) + 1
+    # ends at junctions that get equations (three or more internal interfaces)
+    cands = [(it, end) for it in internal if len(it["pts"]) >= 3 for end in (0, 1) if deg[it["pts"][0 if end == 0 else -1]] >= 3]
+    if not cands:
+        return spec, None
+    it, end = cands[int(rng.integers(0, len(cands)))]
+    a, b = (it["pts"][0], it["pts"][1]) if end == 0 else (it["pts"][-1], it["pts"][-2])
+    t = it["tan0"] if end == 0 else it["tan1"]
+    pos = {i: (x, y) for i, x, y in spec["vertices"]}
+    ang = math.atan2(pos[b][1] - pos[a][1], pos[b][0] - pos[a][0])
+    # component of the tangent across the first segment; the quarter turn is chosen so that the tangent component along the axis on
+    # which the segment component vanishes is positive (the sign the code forces there; the other sign is the known finding D1)
+    across = -math.sin(ang) * t[0] + math.cos(ang) * t[1]
+    if rng.random() < 0.5:
+        quarter = 0 if across > 0 else 2
+    else:
+        quarter = 3 if across > 0 else 1
+    out = similarity(spec, 1.0, -ang + quarter * math.pi / 2, False, 0.0, 0.0)
+    pos = {i: (x, y) for i, x, y in out["vertices"]}
+    fixed = []
+    for i, x, y in out["vertices"]:
+        if i == b:
+            if quarter % 2 == 0:
+                y = pos[a][1]
+            else:
+                x = pos[a][0]
+        fixed.append([i, x, y])
+    out["vertices"] = fixed
+    out["meta"] = dict(out["meta"], aligned=[a, b, quarter])
+    return out, (a, b)
+
+
 def polygon(rng, n, kind="star", snap=8, scale=64.0):
     """simple polygon with n vertices: star-shaped around the origin (possibly non-convex)"""
     angs = np.sort(rng.uniform(0, 2 * math.pi, size=n))
